@@ -1,2 +1,2 @@
-/* fid: dup-param-accepted (fixed 5e1cf9d); msg: duplicate macro parameter 'x' */
+/* fid: dup-param-accepted (fixed e1e687a); msg: duplicate macro parameter 'x' */
 #define F(x,x) x
